@@ -80,6 +80,36 @@ def resume(S, d, lmin, lmax, version, boundary, out_len, cap, pool, persist):
     S.prove(int(resA[4]) == int(resB[4]), 'resume:same-number-of-evaluations-in-final-grid')
 
 
+def resume_tol(S, d, lmin, lmax, version, boundary, out_len, cap):
+    """Dimension-wise strategy with the REAL surplus error estimator (no reference solution, so the tolerance is compared with the
+    estimator's own total surplus error): a run stopped right after its first evaluation and continued with a symbolic tolerance
+    against the single run with that tolerance.  (The estimator adds surplus volumes up per refinement object; a continuation
+    re-evaluates the refinement it stopped at.)"""
+    SD, GO, G, EC, RO, RC = dw.mods()
+    tol = S.real('tol')
+    S.assume(tol > 0)
+
+    def start(tol_, limit):
+        f = lib.make_function(S, 'F', d, out_len)
+        sa, op, _ = dw.make_instance(f, [0.0] * d, [1.0] * d, boundary=boundary, version=version)
+        res = sa.performSpatiallyAdaptiv(lmin, lmax, EC.ErrorCalculatorSingleDimVolumeGuided(), tol=tol_, max_evaluations=limit, print_output=False)
+        return sa, op, res
+
+    saB, opB, resB = start(tol, cap)
+    saA, opA, resA1 = start(-1.0, 0)
+    S.prove(len(resA1[5]) == 1, 'resume-tol:limit-0-stops-after-the-first-evaluation')
+    resA = saA.continue_adaptive_refinement(tol=tol, max_evaluations=cap)
+    S.observe('evaluations', [len(resA[5]), len(resB[5])])
+    S.prove(_structure(saA, d) == _structure(saB, d), 'resume:same-final-refinement-structure')
+    S.prove(_scheme(saA) == _scheme(saB), 'resume:same-final-combination-scheme')
+    rA = [x for x in np.ravel(resA[3])]
+    rB = [x for x in np.ravel(resB[3])]
+    S.prove(sym_and(*[S.eq(rA[j], rB[j]) for j in range(out_len)]), 'resume:same-combined-result')
+    S.prove(int(resA[6][-1]) == int(resB[6][-1]), 'resume:same-point-count')
+    S.prove(S.eq(resA[5][-1], resB[5][-1]), 'resume:same-final-error-estimate')
+    S.prove(S.eq(resA[5][1], resA[5][0]), 'resume:re-evaluating-the-interrupted-state-reports-the-same-error')
+
+
 def _es_structure(sa):
     return sorted((tuple(float(x) for x in o.start), tuple(float(x) for x in o.end), int(o.coarseningValue), int(o.needExtendScheme), int(o.numberOfRefinementsBeforeExtend))
                   for o in es.leaves(sa))
@@ -225,6 +255,10 @@ def jobs(tier):
             cap -= 18
         js.append(Job('resume[d=%d,l=%d-%d,v=%d,%s,out=%d,%s]' % (d, lmin, lmax, v, 'b' if boundary else 'nb', out_len, 'dill' if persist else 'mem'), resume,
                       {'d': d, 'lmin': lmin, 'lmax': lmax, 'version': v, 'boundary': boundary, 'out_len': out_len, 'cap': cap, 'pool': 2 if q else 3, 'persist': persist},
+                      validate=(5 if q else 2), budget_s=(600 if q else 3000)))
+    for (d, lmin, lmax, v, boundary, out_len, cap) in ([(2, 1, 2, 6, True, 1, 0), (2, 1, 2, 6, False, 2, 0)] if q else [(2, 1, 2, 6, True, 1, 0), (2, 1, 2, 6, False, 2, 0), (2, 1, 2, 3, True, 2, 0), (2, 1, 3, 6, True, 1, 0), (3, 1, 2, 6, True, 1, 0)]):
+        js.append(Job('resume-tol[d=%d,l=%d-%d,v=%d,%s,out=%d,cap=%d]' % (d, lmin, lmax, v, 'b' if boundary else 'nb', out_len, cap), resume_tol,
+                      {'d': d, 'lmin': lmin, 'lmax': lmax, 'version': v, 'boundary': boundary, 'out_len': out_len, 'cap': cap},
                       validate=(5 if q else 2), budget_s=(600 if q else 3000)))
     es_cfgs = [(2, 1, 2, 0, 1, False, 1, 45, False), (2, 1, 2, 0, 1, False, 2, 45, True), (2, 1, 2, 1, 2, False, 1, 45, False), (2, 1, 2, 0, 1, True, 1, 26, False)]
     if not q:
